@@ -1165,7 +1165,7 @@ def evidence(out, tier, seed, wall, wall_batch, cross, known_hits, violations, w
         },
         "assumptions": [
             "the reference is the same library code on a fresh object: defects present in every single simulation are invisible here (C01-C04)",
-            "time/schedule arguments are passed as private copies; caller-side mutation of arrays handed to simulate is outside the alphabet",
+            "the harness never writes into an array it handed to simulate (caller-side mutation is outside the alphabet); in 40 % of the scenarios the SAME array objects are handed over again on later calls and to other objects, references always get private copies",
             "B2 after an asynchronous interrupt (F-crash-line, KeyboardInterrupt in the solver) is advisory: counted in probes, not failed",
         ],
     }
